@@ -142,6 +142,14 @@ def _harness(c, cfg):
             total = total + px
         cash = env.broker._holdings_quantity[env.broker.base_currency]
         c.prove_eq("C17:residual-held-as-cash", cash, nlv_pre - total, scale=(nlv_pre,))
+    else:
+        # number-of-contracts mode: the action entries are the positions themselves
+        for con, w in zip(ep.space_contracts, vec):
+            if isinstance(con, Cash):
+                continue
+            if isinstance(w, SymReal):
+                c.assume(core.s_or(w == 0, w >= 1.001e-7, w <= -1.001e-7))
+            c.prove_eq("C17:contracts-mode:position=action-entry", env.broker._holdings_quantity.get(con, 0.0), w)
     c.record("alloc", [[k_.symbol, v] for k_, v in got.items()])
     c.reached("executed")
 
@@ -165,6 +173,8 @@ def configs(tier):
         for kind in ("idx-neg", "idx-n", "idx-float", "idx-array", "idx-ok1", "idx-ok3"):
             add(N=4, M=0, action=kind, delay=d, inject_at=1, space="discrete", cash_in_space=(d == 1))
     add(N=4, M=0, action="sym", delay=0, inject_at=1, two_contracts=True, cash_in_space=True, low=0.0, high=1.0)
+    add(N=4, M=0, action="sym", delay=1, inject_at=1, two_contracts=True, cash_in_space=True, as_weights=False,
+        low=-1.0, high=2.0)
     if tier == "thorough":
         for d in (0, 1, 2):
             for j in (1, 2):
@@ -187,7 +197,6 @@ ASSUMPTIONS = _A + ["Box bounds concrete ([-1,2], [0,1], [-2.5,3]); the probed a
 BOUNDS = {"quick": "grid of 4, delays 0-1, malformed action injected at step 1 or 2, spaces with and without a cash entry, "
                    "Box and Discrete",
           "thorough": "grid of 5, delays 0-2, two contracts, wider bounds"}
-OUTSIDE = ["custom PortfolioSpace subclasses", "number-of-contract mode with symbolic actions (as_weights=False) beyond "
-           "the allocation identity"]
+OUTSIDE = ["custom PortfolioSpace subclasses"]
 STUBS = ["builtin float() shadowed in tradingenv.rewards (identity on proxies)"]
 DEADLINE_S = {"quick": 900, "thorough": 3600}
